@@ -12,7 +12,9 @@ THEOREMS = ["C20.C20_expectBody_false_iff", "C20.C20_buffer_drops_body_kinds", "
             "C20.C20_status_table", "C20.C20_response_limit", "C20.C20_abort_restores", "C20.C20_abort_state",
             "C20.C20_failed_hijack_relayed", "C20.C20_info_implicit_final_counterexample", "C20.C20_retry_documented",
             "C20.C20_link_connlimit", "C20.C20_link_ratelimit", "C20.C20_link_breaker", "C20.C20_link_balancer",
-            "C20.C20_link_buffer", "C20.C20_link_decision", "C20.C20_transparent_composed", "C20.C20_decisive_composed"]
+            "C20.C20_link_buffer", "C20.C20_link_decision", "C20.C20_transparent_composed", "C20.C20_decisive_composed",
+            "C20.C20_pw_transparent", "C20.C20_pw_depth_irrelevant", "C20.C20_pw_records", "C20.C20_pw_capabilities",
+            "C20.C20_pw_status_is_wire_status", "C20.C20_pw_status_disorderly_counterexample"]
 RACE = False
 JOBS = 12
 BATCH_TIMEOUT = 600
@@ -189,7 +191,79 @@ def expected_course(stack, iv, sc, tokens, src, blen, abort, hij):
 
 
 # ---------------------------------------------------------------- monitor (model-independent restatement of C20)
+# ---------------------------------------------------------------- ProxyWriter nests (`cfg pw …`, Model/Writer.lean)
+PW_CODES = [0, 100, 101, 102, 103, 199, 200, 201, 204, 304, 404, 500, 502, 503, 999]
+
+
+def is_pw(ops):
+    for l in ops:
+        if l.startswith("cfg"):
+            return l.split()[1:2] == ["pw"]
+    return False
+
+
+def monitor_pw(ops, outs):
+    """model-independent restatement of C20_pw_transparent / C20_pw_records / C20_pw_capabilities on the implementation's lines"""
+    bad = []
+    depth = base = None
+    seen, code, length = [], 0, 0
+    for l, o in zip(ops, outs):
+        f = l.split()
+        if not f or l.startswith("#"):
+            continue
+        if f[0] == "cfg":
+            kv = dict(t.split("=", 1) for t in f[2:])
+            depth, base = int(kv["depth"]), kv["base"].replace("-", "")
+            seen, code, length = [], 0, 0
+            if o != "ok":
+                bad.append("setup: %s" % o)
+                return bad
+            continue
+        ok = True
+        if f[0] == "wh":
+            code = int(f[1])
+            seen.append("wh:%d" % code)
+        elif f[0] == "w":
+            b = [] if f[1] == "-" else [int(x) for x in f[1].split(",")]
+            length += len(b)
+            seen.append("w:%d:%d" % (len(b), sum(b)))
+        elif f[0] == "flush":
+            if "f" in base:
+                seen.append("fl")
+            ok = depth > 0 or "f" in base
+        elif f[0] == "hijack":
+            if "h" in base:
+                seen.append("hj")
+            ok = "h" in base
+        else:
+            continue
+        want = "r=%d seen=%s sc=%s len=%s" % (ok, ",".join(seen) or "-", ",".join([str(code or 200)] * depth) or "-", ",".join([str(length)] * depth) or "-")
+        if o != want:
+            bad.append("ProxyWriter nest of depth %d over a base writer with {%s}: after `%s` the writer chain is not transparent "
+                       "(wrapped writer must have received exactly the handler's calls, StatusCode() the last WriteHeader code, GetLength() "
+                       "the bytes written): got `%s`, expected `%s`" % (depth, base, l, o, want))
+            return bad
+    return bad
+
+
+def pw_call(rng):
+    k = rng.random()
+    if k < 0.3:
+        return "wh %d" % rng.choice(PW_CODES)
+    if k < 0.7:
+        n = rng.choice([0, 0, 1, 2, 3, 8])
+        return "w " + (",".join(str(rng.choice([0, 1, 7, 65, 255])) for _ in range(n)) or "-")
+    return "flush" if k < 0.9 else "hijack"
+
+
+def gen_pw(rng, n):
+    for _ in range(n):
+        yield ["cfg pw depth=%d base=%s" % (rng.choice([0, 1, 1, 2, 2, 3, 5]), rng.choice(["fh", "f", "h", "-"]))] + [pw_call(rng) for _ in range(rng.randint(1, 10))]
+
+
 def monitor(ops, outs):
+    if is_pw(ops):
+        return monitor_pw(ops, outs)
     bad = []
     stack = iv = sc = None
     for l, o in zip(ops, outs):
@@ -344,6 +418,8 @@ MAX_REPORTS = 100000
 
 
 def nontrivial(ops, outs):
+    if is_pw(ops):
+        return len(ops) >= 4 and not ops[0].endswith("depth=0") and any(l.startswith("w") for l in ops[1:]) and any(l in ("flush", "hijack") for l in ops[1:])
     for l in ops:
         if l.startswith("cfg"):
             stack, iv, sc = parse_cfg(l)
@@ -352,6 +428,14 @@ def nontrivial(ops, outs):
 
 
 def describe(ops, outs, hist):
+    if is_pw(ops):
+        hist["pw:scenario"] += 1
+        hist["pw:%s" % ops[0].split()[2]] += 1
+        for l in ops[1:]:
+            hist["pw-op:" + ("w-empty" if l == "w -" else l.split()[0])] += 1
+            if l.startswith("wh "):
+                hist["pw-code:%s" % ("1xx" if 100 <= int(l[3:]) <= 199 else "0" if l == "wh 0" else "final")] += 1
+        return
     stack = None
     for l, o in zip(ops, outs):
         f = l.split()
@@ -485,6 +569,7 @@ ESCALATED_TIER = "escalated"
 
 def gen(rng, tier):
     n_scen = {"quick": 1200, "thorough": 6000, "search": 600, "escalated": 4000}.get(tier, 1200)
+    yield from gen_pw(rng, n_scen // 2)
     for _ in range(n_scen):
         depth = rng.choice([0, 1, 1, 2, 2, 3, 3, 3, 4, 4, 5])
         kinds = [rng.choice(KINDS) for _ in range(depth)]
@@ -512,6 +597,12 @@ FIXED_HIJACK = "status:none;hdr:Content-Type=text/verif,X-A=1,X-A=2;body:3,2000;
 def exhaustive(tier):
     if tier != "thorough":
         return
+    alpha = ["wh 103", "wh 200", "wh 502", "wh 0", "w -", "w 1,2", "flush", "hijack"]
+    for d in (0, 1, 2, 3):
+        for b in ("fh", "f", "h", "-"):
+            for n in range(1, 5):
+                for seq in itertools.product(alpha, repeat=n):
+                    yield ["cfg pw depth=%d base=%s" % (d, b)] + list(seq)
     for d in range(0, 5):
         for kinds in itertools.permutations(KINDS, d):
             toks = [k + ("/s" if k in ("roundrobin", "rebalancer") else "") + ("/q16/t" if k == "buffer" else "")
